@@ -10,7 +10,7 @@
 (* Design level: Updated() changes nothing but property sets of the layer.    *)
 EXTENDS VectorTile, Json
 
-CONSTANTS Mode, NSources, PoolSize, Variants
+CONSTANTS Mode, NSources, PoolSize, Variants, MaxFeats
 
 VARIABLES c
 vars == <<c>>
@@ -20,8 +20,10 @@ P(k, v) == <<k, v>>
 F1 == [id |-> "none", gt |-> 1, geom |-> 1, props |-> << P("k", V("s", "x")) >>]
 F2 == [id |-> "7", gt |-> 3, geom |-> 2, props |-> << P("j", V("b", "1")), P("k", V("n", "5")) >>]
 F3 == [id |-> "18446744073709551615", gt |-> 0, geom |-> 3, props |-> << P("j", V("n", "-3")), P("m", V("s", "x")) >>]
-Pool == IF PoolSize = 2 THEN <<F1, F2>> ELSE <<F1, F2, F3>>
-FeatSeqs == {<<>>} \cup { <<Pool[i]>> : i \in 1..Len(Pool) } \cup { <<Pool[i], Pool[j]>> : i \in 1..Len(Pool), j \in 1..Len(Pool) }
+F0 == [id |-> "3", gt |-> 2, geom |-> 4, props |-> <<>>]          \* a feature without any property
+Pool == IF PoolSize = 2 THEN <<F0, F2>> ELSE IF PoolSize = 3 THEN <<F0, F1, F2>> ELSE <<F0, F1, F2, F3>>
+FeatSeqs == {<<>>} \cup { <<Pool[i]>> : i \in 1..Len(Pool) }
+            \cup (IF MaxFeats >= 2 THEN { <<Pool[i], Pool[j]>> : i \in 1..Len(Pool), j \in 1..Len(Pool) } ELSE { <<Pool[1], Pool[Len(Pool)]>> })
 LayerOpt == {[p |-> 0, f |-> <<>>]} \cup { [p |-> 1, f |-> fs] : fs \in FeatSeqs }
 MkTile(la, lb, ext) ==
     (IF la.p = 0 THEN <<>> ELSE <<[name |-> "a", extent |-> ext, version |-> 2, feats |-> la.f]>>) \o
@@ -35,6 +37,7 @@ U3 == [id |-> "18446744073709551615", gt |-> 3, geom |-> 3, props |-> << P("k", 
 U4 == [id |-> "4", gt |-> 0, geom |-> 4, props |-> << P("id", V("s", "zz")), P("k", V("b", "0")) >>]
 UPool == <<U1, U2, U3, U4>>
 USeqs == { <<UPool[i], UPool[j]>> : i \in 1..4, j \in 1..4 } \cup { <<UPool[i]>> : i \in 1..4 } \cup { <<U1, U2, U3, U4>> }
+         \cup { <<UPool[i], UPool[j], UPool[k]>> : i \in 1..4, j \in 1..4, k \in 1..4 }
 UTiles == { << [name |-> "a", extent |-> 4096, version |-> 2, feats |-> fa],
                [name |-> "b", extent |-> 512, version |-> 1, feats |-> <<U1, U3>>] >> : fa \in USeqs }
 \* data table rows (without the id column; the id column is added when include_id is set)
